@@ -669,6 +669,22 @@ class DefaultCodec(Codec):
                         from_parent=True,
                     )
 
+            if isinstance(obj, DefaultCodec.PicklePartition):
+                # A partition that was read back from storage and is returned once more (by
+                # another function) carries the entries it inherited in its own index
+                # noinspection PyProtectedMember
+                for k, v in obj._index.items():
+                    if v.from_parent:
+                        # noinspection PyProtectedMember
+                        data_source.reference(
+                            obj._data_source, v.content_key, v.content_key
+                        )
+                        index[k] = _ResultTypeAndContentKey(
+                            result_type=v.result_type,
+                            content_key=v.content_key,
+                            from_parent=True,
+                        )
+
             # Layer current keys on top of parent's keys
             output_keys = dict()
             keys = obj.list_keys(_include_merge_parent=False)
